@@ -39,6 +39,8 @@ type logT struct {
 	// the caller, with a timestamp of its own that goes BACKWARDS from record to record (forwarded lines of another
 	// process, whole-second timestamps). Same path as a derived call otherwise (Enabled, then Handle).
 	OldTime bool `json:",omitempty"`
+	// ViaDefault (with Derived, in a Global history): logged through slog.Default().With("w", g)
+	ViaDefault bool `json:",omitempty"`
 }
 
 type bopT struct {
@@ -62,6 +64,9 @@ type bcaseT struct {
 	Custom    bool `json:",omitempty"`
 	// Source: the logger is built with logging.WithSource(true) (ungated mode)
 	Source bool `json:",omitempty"`
+	// Global (ungated): the Logger is registered as the process default (WithGlobalLogger); derived calls marked
+	// ViaDefault go through slog.Default() instead of the Logger's own With
+	Global bool `json:",omitempty"`
 	// Overlap: the fixed history of overlap.go (two overlapping FlushBuffer calls), run without the conductor
 	Overlap bool `json:",omitempty"`
 	Progs   [][]bopT
@@ -208,6 +213,8 @@ func (c *conductor) worker(w int) {
 						t := time.Unix(1700000000-int64(3600*op.L.Seq), 0)
 						_ = h.Handle(context.Background(), slog.NewRecord(t, slogLevels[op.L.Lvl], msg, 0))
 					}
+				} else if op.L.Derived && op.L.ViaDefault && c.c.Global {
+					slog.Default().With("w", w).Log(context.Background(), slogLevels[op.L.Lvl], msg)
 				} else if op.L.Derived {
 					c.l.With("w", w).Log(context.Background(), slogLevels[op.L.Lvl], msg)
 				} else {
@@ -280,6 +287,12 @@ func runB(k bcaseT, r *hx.Rand) (bcaseT, []evT, bool, map[string]int) {
 		lopts := []logging.Option{logging.WithJSONHandler(), logging.WithOutput(traceWriter{c})}
 		if k.Source {
 			lopts = append(lopts, logging.WithSource(true))
+		}
+		if k.Global {
+			// (histories run one at a time; the process default is put back afterwards)
+			prev := slog.Default()
+			defer slog.SetDefault(prev)
+			lopts = append(lopts, logging.WithGlobalLogger())
 		}
 		c.l, err = logging.New(lopts...)
 	}
@@ -589,6 +602,9 @@ func emitBuffer(id string, k bcaseT, r *hx.Rand, st *hx.Stats) string {
 		if hasStale {
 			st.Count("buffer_has_stale_logger")
 		}
+		if k.Global {
+			st.Count("buffer_process_default_logger")
+		}
 		if !ok {
 			st.Count("buffer_panicked")
 		}
@@ -628,6 +644,7 @@ func setLevelWhileBuffered(k bcaseT, trace []evT) bool {
 func genBuffer(r *hx.Rand) bcaseT {
 	k := bcaseT{Custom: r.Chance(1, 2)}
 	k.Source = !k.Custom && r.Chance(1, 3)
+	k.Global = !k.Custom && r.Chance(1, 4)
 	staleCase := r.Chance(1, 10)
 	n := hx.Pick(r, []int{1, 2, 2, 3, 3, 4})
 	for w := 0; w < n; w++ {
@@ -643,6 +660,7 @@ func genBuffer(r *hx.Rand) bcaseT {
 					lc.Stale, lc.Derived = true, false
 				}
 				lc.OldTime = lc.Derived && r.Chance(1, 3)
+				lc.ViaDefault = lc.Derived && !lc.OldTime && k.Global && r.Chance(1, 2)
 				p = append(p, bopT{K: "L", L: lc})
 				seq++
 			case x < 14:
@@ -732,6 +750,8 @@ func fixedBuffer() []bcaseT {
 		{Custom: true, Progs: [][]bopT{{S, lg(0, 3, false), {K: "H"}, F}}, Sched: []stepT{{G: 0}, {G: 0}, {G: 0}, {G: 0}, {G: 0}}},
 		// K20f: a slog.Logger obtained before StartBuffering bypasses the buffer
 		{Progs: [][]bopT{{S, lg(0, 3, false), {K: "L", L: &logT{Seq: 1, Lvl: 3, Stale: true}}, F}}, Sched: r0(4)},
+		// the Logger is the process default: records logged through slog.Default() while buffering keep their place
+		{Global: true, Progs: [][]bopT{{S, lg(0, 3, false), {K: "L", L: &logT{Seq: 1, Lvl: 3, Derived: true, ViaDefault: true}}, {K: "V", Lvl: 0}, {K: "L", L: &logT{Seq: 2, Lvl: 1, Derived: true, ViaDefault: true}}, lg(3, 3, false), F}}, Sched: r0(7)},
 		// records forwarded with their own, decreasing timestamps while buffering: replayed in the order they were logged
 		{Progs: [][]bopT{{S, {K: "L", L: &logT{Seq: 0, Lvl: 3, Derived: true, OldTime: true}}, {K: "L", L: &logT{Seq: 1, Lvl: 3, Derived: true, OldTime: true}}, lg(2, 3, false), {K: "L", L: &logT{Seq: 3, Lvl: 3, Derived: true, OldTime: true}}, F}}, Sched: r0(6)},
 		// the output is down for six writes and comes back: the records after the burst must still come out
